@@ -24,7 +24,7 @@
                                          GC_Del at the end of Thread_Init_Run
      OLock/OUnlock/OTrySpin/OWith        Mutex_Lock, Mutex_Unlock, Mutex_Trylock, with(..) = start/stop
      OSpawn/OJoin                        Thread_Call (pthread_create), Thread_Join (pthread_join)
-   Parameters (Section variables, instantiated from coq/Generated.v):
+   Model switches (Section variables, instantiated from coq/Generated.v):
      clear_on_catch   exception_catch clears `active` when it hands the exception out (repair D3)
      busy_result      what Mutex_Trylock returns on EBUSY (false in the source)
      walk_foreign     false = Thread_Mark walks only the CURRENT thread's TLS table (repaired source);
